@@ -90,6 +90,11 @@ class Gen:
                 exprs[p] = self.rng.choice(EXPR_TEMPLATES_2).format(x=x, y=y)
             else:
                 exprs[p] = self.rng.choice(EXPR_TEMPLATES_1).format(x=self.rng.choice(names))
+        if targets and self.chance(0.12):
+            # a variable whose items are themselves lists ("windows"); expressions reduce them with max/min
+            variables["w"] = {"values": [[self.val(), self.val()] for _ in range(self.rng.randint(1, 3))]}
+            exprs[self.rng.choice(targets)] = self.rng.choice(["max(w)", "min(w) + 1.0", "max(w) * 2.0"])
+            names = names + ["w"]
         block: dict = {"parameters": exprs, "variables": variables}
         if comp.kind != "probe":
             block["collection"] = "FloatDataCollection"
@@ -320,6 +325,29 @@ class Gen:
                 else:
                     n.setdefault("parameters", {})[rng.choice(["bogus", "factr", "extra_param"])] = self.val()
         return {"nodes": nodes, "ctx": ctx, "data": data}
+
+
+EXOTIC_VALUES = [
+    {(0, 1): 3.0},                 # dict with tuple keys (not JSON-encodable)
+    {"inner": {(2, 3): "x"}},      # nested
+    {1.5, 2.5},                    # set
+    b"raw-bytes",
+    complex(1.0, 2.0),
+    float("nan"),
+    float("inf"),
+    ("tuple", 1, 2.0),
+    "x" * 5000,                    # long string
+    {"a": None, "b": [1, {"c": (1, 2)}]},
+    range(3),
+]
+
+
+def add_exotic_parameter(case: dict, g: "Gen") -> dict:
+    """Append a sink whose (defaulted) ``tag`` parameter is resolved from the context with an exotic value: the
+    value really passed to the leaf is a legal Python object that JSON cannot (or can only oddly) encode."""
+    c = {"nodes": list(case["nodes"]) + [{"processor": "VNullSink"}], "ctx": dict(case["ctx"]), "data": case["data"]}
+    c["ctx"]["tag"] = g.rng.choice(EXOTIC_VALUES)
+    return c
 
 
 def to_yaml(nodes: list, extra: Optional[dict] = None, extensions=("semantiva-examples", "vlib.components")) -> str:
